@@ -109,7 +109,8 @@ func (p *FloatingIPPlugin) resyncAllocatedIPs(meta *resyncMeta) {
 				return
 			}
 			glog.Infof("%s is not running, %s", obj.keyObj.KeyInDB, reason)
-			if p.cloudProvider != nil && obj.fip.NodeName != "" {
+			// another ip of the key may still be recorded on a node even if this one is not (a bind which failed half way)
+			if p.cloudProvider != nil && (obj.fip.NodeName != "" || p.ipsOfKeyOnNode(key)) {
 				// For tapp and sts pod, nodeName will be updated to empty after unassigning
 				if err := p.unassignIPsOfKey(key, "during resync"); err != nil {
 					glog.Warning(err)
